@@ -498,9 +498,25 @@ def _iteration_facts(guard: Formula, base, atom_info: dict | None) -> tuple[dict
     return assume, f_and(cons)
 
 
-def classify_bucket(field: str, value, source_of: dict | None = None, atom_info: dict | None = None) -> BucketValue:
+def _expand_symbolic(value, interp):
+    """A bucket that is a *symbolic* collection derived from a query result without the detector adding elements one by one
+    (`set(chain.from_iterable(d.values()))`, `list(d)`, ...): one abstract pass over it gives its add-events."""
+    if interp is None:
+        return value
+    if isinstance(value, Alt):
+        opts = [(g, _expand_symbolic(o, interp)) for g, o in value.options]
+        return Alt(opts)
+    if isinstance(value, Sym) and value.term and value.term[0] in ("copy", "flat", "values", "keys", "items", "reversed") and _query_of(value.term) is not None:
+        ents = interp.iterate(value)
+        if ents is not None:
+            return Coll("set", list(ents), 0)
+    return value
+
+
+def classify_bucket(field: str, value, source_of: dict | None = None, atom_info: dict | None = None, interp=None) -> BucketValue:
     """Judging mode of one violation bucket from the add-events the interpreter recorded for it."""
     bv = BucketValue(field, [])
+    value = _expand_symbolic(value, interp)
     if isinstance(value, Alt):
         # a bucket that is one of several collections, depending on data: merge the alternatives' events
         merged = Coll("set", [], 0)
@@ -509,12 +525,15 @@ def classify_bucket(field: str, value, source_of: dict | None = None, atom_info:
                 merged.entries += [(x, f_and([g, gx])) for x, gx in o.entries]
             else:
                 bv.mode, bv.detail = "unknown", f"bucket value is not a collection: {show_term(term_of(o))[:80]}"
+                bv.undecided = f"{field}: {bv.detail} (a value the interpreter holds opaquely)"
                 return bv
         value = merged
     if not isinstance(value, Coll):
         if isinstance(value, Sym) and value.term[0] == "copy":
             pass
         bv.mode, bv.detail = "unknown", f"bucket value is not a collection built by the detector: {show_term(term_of(value))[:80]}"
+        if not (isinstance(value, Const) and value.value is None):
+            bv.undecided = f"{field}: {bv.detail} (a value the interpreter holds opaquely)"
         return bv
     groups: dict = {}
     for x, g in value.entries:
@@ -562,11 +581,36 @@ def classify_bucket(field: str, value, source_of: dict | None = None, atom_info:
         else:
             modes.add("unknown")
             details.append(f"element `{gr.sample}` derives neither from the keys nor from the realisations of a query result")
+            opaque = _opaque_steps(value, gr)
+            if opaque and not bv.undecided:
+                bv.undecided = f"{field}: an element reaches the bucket through {opaque}, which the interpreter does not follow - where it comes from is not known"
     bv.mode = next(iter(modes)) if len(modes) == 1 else "mixed"
     bv.source = next(iter(sources)) if len(sources) == 1 else "mixed"
     bv.gran = next(iter(grans)) if len(grans) == 1 else ("joint" if "joint" in grans else "filtered" if "filtered" in grans else None)
     bv.detail = "; ".join(details)
     return bv
+
+
+_OPAQUE_HEADS = {"?", "global", "lib", "builtin", "getter", "lambda", "def", "unbound", "partial", "bound", "fn", "cls", "super", "missing", "missing-default"}  # (slices, next(), pop() are modelled: they select elements by position)
+
+
+def _opaque_steps(value, gr: Group) -> str:
+    """Names the first step in the derivation of a bucket element of unknown origin that the interpreter did not model (a call it
+    did not follow, a value it holds opaquely): without it the origin cannot be told, so nothing is known *against* the code."""
+    for x, g in value.entries:
+        if g == FALSE:
+            continue
+        kind, base, it, _shape = _normalise(x)
+        if (kind, base, it) != (gr.kind, gr.base, gr.iter):
+            continue
+        for st in subterms(term_of(x)):
+            if not isinstance(st, tuple) or not st:
+                continue
+            if st[0] == "call" and len(st) >= 2 and st[1] not in QUERIES:
+                return f"the call `{st[1]}(...)`"
+            if st[0] in _OPAQUE_HEADS:
+                return f"`{show_term(st)[:60]}`"
+    return ""
 
 
 def _is_true(f: Formula, constraints: Formula = TRUE) -> bool:
@@ -587,10 +631,10 @@ def _equiv(a: Formula, b: Formula, constraints: Formula = TRUE) -> bool:
         return False
 
 
-def buckets_of(viol: Inst | None, source_of: dict | None = None, atom_info: dict | None = None) -> dict:
+def buckets_of(viol: Inst | None, source_of: dict | None = None, atom_info: dict | None = None, interp=None) -> dict:
     if viol is None:
         return {}
-    return {f: classify_bucket(f, v, source_of, atom_info) for f, v in viol.fields.items()}
+    return {f: classify_bucket(f, v, source_of, atom_info, interp) for f, v in viol.fields.items()}
 
 
 def active_set(buckets: dict) -> set:
@@ -648,7 +692,7 @@ def demand_run(repo: Repo, sc: Scenario) -> dict:
     inst = res if isinstance(res, Inst) else next((o for _g, o in (res.options if isinstance(res, Alt) else []) if isinstance(o, Inst)), None)
     if inst is None:
         raise AnalysisError(f"{grv.fq} does not return a violations object at '{sc.name}'")
-    out = buckets_of(inst, data_param_sources(repo), run.interp.atom_info)
+    out = buckets_of(inst, data_param_sources(repo), run.interp.atom_info, run.interp)
     cache[key] = out
     return out
 
@@ -968,6 +1012,7 @@ def plain_mode(repo: Repo, field: str) -> tuple:
     for sc in legal_scenarios():
         b = demand_run(repo, sc)[field]
         if b.empty:
+            und = und or b.undecided
             continue
         modes.add(b.mode)
         grans.add(b.gran)
